@@ -240,6 +240,7 @@ def inv_oracle(cases, impl):
 EVENT_POOL = ["load_name", "after_int", "after_binop", "after_call", "after_assign_rhs", "after_stmt", "after_attribute_load", "after_subscript_load",
               "after_compare", "after_argument", "list_elt", "tuple_elt", "dict_value", "after_if_test", "after_return", "before_call", "after_for_iter",
               "after_string", "before_stmt", "after_bool", "left_binop_arg", "right_binop_arg"]
+INTERNAL = {"after_stmt", "before_subscript_load", "before_subscript_store", "before_subscript_del"}
 TYPES = ["Name", "Constant", "BinOp", "Call", "Assign", "Expr", "Attribute", "Subscript", "Compare", "AugAssign", "Return", "If", "For"]
 
 
@@ -353,14 +354,16 @@ def prog_oracle(c, im):
                         m = False
                     elif m:
                         first.add(key)
-                some = any(r[0] in h2["events"] and node_meaning(h2["pred"], node) for _, _, h2 in allh)
+                # BaseTracer itself registers unconditional helper handlers on these events: they count as "another handler of the event"
+                some = r[0] in INTERNAL or any(r[0] in h2["events"] and node_meaning(h2["pred"], node) for _, _, h2 in allh)
                 if m:
                     want.append(r[:2])
                 if some and (node_static(h["pred"]) or m):
                     want_char.append(r[:2])
             got = [g for g in got if g[1] is not None]
             if got != want:
-                region = node_static(h["pred"]) and sum(1 for _, _, h2 in allh if set(h2["events"]) & set(h["events"])) > 1 and got == want_char
+                shared = sum(1 for _, _, h2 in allh if set(h2["events"]) & set(h["events"])) > 1 or bool(set(h["events"]) & INTERNAL)
+                region = node_static(h["pred"]) and shared and got == want_char
                 i = next((k for k in range(max(len(got), len(want))) if (got[k] if k < len(got) else None) != (want[k] if k < len(want) else None)), 0)
                 return {"what": "handler %d of tracer %d was invoked for %d occurrences, its condition selects %d (first difference at %d)" % (hi, ti, len(got), len(want), i),
                         "observed": got[i] if i < len(got) else None, "expected": want[i] if i < len(want) else None, "kind": "static-shared" if region else "exact",
